@@ -216,6 +216,7 @@ template <class F> static void body(long region, F&& f) {
 struct Obs;
 static Obs* O_[MAXK];
 static int g_bal[MAXK][MAXT];
+static int g_obs_idx[MAXK][MAXT];          // current_thread_index reported at the observer's entry call (-1: not between entry and exit)
 static bool g_obs_off[MAXK];
 static long g_obs_calls = 0;
 struct Obs : tbb::task_scheduler_observer {
@@ -227,13 +228,22 @@ struct Obs : tbb::task_scheduler_observer {
         if (g_obs_off[k]) viol("OBS observer " + std::to_string(k) + ": on_scheduler_entry on thread " + std::to_string(t) + " after observe(false) returned");
         if (g_bal[k][t] != 0) viol("OBS observer " + std::to_string(k) + ": second on_scheduler_entry on thread " + std::to_string(t) + " without an exit in between");
         g_bal[k][t] = 1;
+        // threads that are between the entry and the exit call of ONE observer are inside one arena: pairwise distinct current_thread_index
+        int idx = tbb::this_task_arena::current_thread_index();
+        g_obs_idx[k][t] = idx;
+        for (int u = 0; u < MAXT; ++u)
+            if (u != t && g_bal[k][u] == 1 && g_obs_idx[k][u] == idx)
+                viol("BOUND threads " + std::to_string(u) + " and " + std::to_string(t) + " are both between on_scheduler_entry and on_scheduler_exit of observer " + std::to_string(k) +
+                     " with the same current_thread_index " + std::to_string(idx) + " (the first one is still leaving: its exit call has not returned)");
         verif::note("obs_entry", k, t);
     }
     void on_scheduler_exit(bool) override {
         int t = verif::self(); ++g_obs_calls;
         if (g_obs_off[k]) viol("OBS observer " + std::to_string(k) + ": on_scheduler_exit on thread " + std::to_string(t) + " after observe(false) returned");
         if (g_bal[k][t] != 1) viol("OBS observer " + std::to_string(k) + ": on_scheduler_exit on thread " + std::to_string(t) + " without a matching entry");
-        g_bal[k][t] = 0;
+        // a user callback takes time: other threads run (and may try to enter the arena) while this thread is still inside its exit call
+        for (int i = 0; i < 3; ++i) (void)g_ev[MAXV - 1].load();
+        g_bal[k][t] = 0; g_obs_idx[k][t] = -1;
         verif::note("obs_exit", k, t);
     }
 };
